@@ -69,7 +69,7 @@ Terminal == status \in {"done", "fail"}
 (***************************** properties *********************************)
 TypeOK == /\ status \in {"init", "run", "done", "fail"}
           /\ pc \in 0..MaxLen
-          /\ failClass \in {"", "build", "type", "resolve", "proc", "undeclared"}
+          /\ failClass \in {"", "build", "type", "resolve", "proc", "undeclared", "abort"}
           /\ (status = "fail") <=> (failClass # "")
 
 \* steps records exactly the nodes that completed
